@@ -175,6 +175,13 @@ func cmdReplay(args []string) int {
 	if verdict.Reproduced {
 		return 1
 	}
+	if v.Kind == "exec" || schedDependent(v) {
+		ok, sum := execConfirm(v, idx.Harnesses)
+		fmt.Println("executor re-execution of the recorded path and schedule:", sum)
+		if ok {
+			return 1
+		}
+	}
 	return 0
 }
 
